@@ -49,7 +49,7 @@ def run(ctx):
             subst=dict(IDS="{0,1,2}", LIDS="{0,1}", DIRECTED="FALSE", WEIGHTS="{1}", EMIT="FALSE"), coverage=True)
     if os.path.exists(os.path.join(os.path.dirname(__file__), "..", "..", "specs", "graph", "GraphStore.tla")):
         ctx.tlc("graph/GraphStore.tla", "graph/GraphStore.cfg", name="R1 GraphStore refines GraphSet",
-                subst=dict(IDS="{0,1,2}"), coverage=True)
+                subst=dict(IDS="{0,1,2,3}" if thorough else "{0,1,2}"), coverage=True)
     if thorough:
         ctx.tlc("graph/GraphMulti.tla", "graph/GraphMulti_model.cfg", name="R1 GraphMulti directed 3 ids x 2 line ids",
                 subst=dict(IDS="{0,1,2}", LIDS="{0,1}", DIRECTED="TRUE", WEIGHTS="{1}", EMIT="FALSE"))
